@@ -44,7 +44,7 @@ def check(run):
     k = 3 if thorough else 2
     run.rules.append("leg M/R: every sequence of <= %d descriptor registrations over 14 keys (all nine kinds; `-` as unary and as binary, f as function and as reference; a second identity "
                      "replacing an earlier registration), reached through the specification's SetDescriptor action: in every state the code-shaped lookups (key construction, variant match, "
-                     "fallback) agree with the reference rendering D on 8 programs containing every kind, and a registration changes only nodes with its own key (action property); each "
+                     "fallback) agree with the reference rendering D on 10 programs containing every kind (empty list, empty map and a call without arguments included), and a registration changes only nodes with its own key (action property); each "
                      "reachable history is replayed in a fresh process of the real engine (the store is process-global) with marker descriptors and describe() compared string for string; "
                      "non-trivial = history with at least one registration" % k)
     run.rules.append("leg T: random registration histories x random parsed programs (strings excluded), each in a fresh process, validated by TLC against D")
